@@ -474,7 +474,9 @@ void sm9_z256_modp_haf(sm9_z256_t r, const sm9_z256_t a)
 
 void sm9_z256_modp_neg(sm9_z256_t r, const sm9_z256_t a)
 {
-	(void)sm9_z256_sub(r, SM9_Z256_P, a);
+	const sm9_z256_t zero = {0,0,0,0};
+	// 0 - a (mod p), so that -0 = 0 instead of p
+	sm9_z256_modp_sub(r, zero, a);
 }
 #endif
 
